@@ -185,9 +185,9 @@ pub fn run(s: &Session) {
     let all = !s.quick();
     // small depths: every period of every depth, both constructions (the per-seed space is finite;
     // seeds are sampled)
-    s.forall("all-periods-depth1-4", s.pick(3_000, 40_000), move || case(true, 1..=4), check);
+    s.forall("all-periods-depth1-4", s.pick(4_000, 50_000), move || case(true, 1..=4), check);
     // deep keys
-    s.forall("deep-keys-depth5-7", s.pick(1_000, 3_200), move || case(all, 5..=7), check);
+    s.forall("deep-keys-depth5-7", s.pick(1_300, 4_000), move || case(all, 5..=7), check);
 
     if !s.replaying() {
         for kind in ["sum", "compact"] {
